@@ -27,13 +27,30 @@ func propC19(c *Ctx) propInfo {
 				if !ok {
 					return false
 				}
-				return derivesFrom(b.X, callResult("time.Since"), false) && derivesFrom(b.Y, fieldLoad("lifeTimeProof"), false)
+				return (derivesFrom(b.X, callResult("time.Since"), false) && derivesFrom(b.Y, fieldLoad("lifeTimeProof"), false)) ||
+					((b.Op == token.LSS || b.Op == token.LEQ) && derivesFrom(b.Y, callResult("time.Since"), false) && derivesFrom(b.X, fieldLoad("lifeTimeProof"), false))
 			}, kind: "notbool"},
 		}, nil, "")
 		// state-init path: the call extracting a key from the state-init is dominated by the
 		// passing edge of compareStateInitWithAddress
+		// the comparison: the helper, or - inlined - bytes.Equal of the state-init's cell hash with the account's address
+		inlineCmp := func(v ssa.Value) bool {
+			cl := callOf(v)
+			if cl == nil || callQName(&cl.Call) != "bytes.Equal" {
+				return false
+			}
+			isHash := func(x ssa.Value) bool {
+				return derivesFrom(x, callResult(bocPath+".Cell.Hash", bocPath+".Cell.Hash256"), true)
+			}
+			isAddr := func(x ssa.Value) bool {
+				return derivesFrom(x, func(y ssa.Value) bool { _, n, ok := fieldOf(y); return ok && n == "Address" }, true)
+			}
+			a, b := cl.Call.Args[0], cl.Call.Args[1]
+			return (isHash(a) && isAddr(b)) || (isHash(b) && isAddr(a))
+		}
 		c.callDominatedBy(R, cp, modPath+"/tonconnect.ParseStateInit",
-			requiredCheck{name: "compareStateInitWithAddress(account, stateInit)", src: callResult(modPath + "/tonconnect.compareStateInitWithAddress"), kind: "bool"})
+			requiredCheck{name: "compareStateInitWithAddress(account, stateInit)", src: callResult(modPath + "/tonconnect.compareStateInitWithAddress"), kind: "bool",
+				alts: []requiredCheck{{name: "bytes.Equal(hash(stateInit), account.Address)", src: inlineCmp, kind: "bool"}}})
 	}
 	c.definitelyAssigned(R, c.mustFn(R, "tonconnect", "ParseStateInit"), 1, "pubKey")
 	// the verification primitive: ed25519.Verify, called directly or through the one-line wrapper
@@ -42,7 +59,11 @@ func propC19(c *Ctx) propInfo {
 	} else if cp != nil {
 		c.check(len(callsTo(cp, "crypto/ed25519.Verify")) >= 1, R, "tonconnect.signatureVerify returns crypto/ed25519.Verify unchanged", cp.Pos(), "CheckProof calls ed25519.Verify directly (no wrapper)", "CheckProof verifies the signature with something other than ed25519.Verify")
 	}
-	c.returnsUnchanged(R, c.mustFn(R, "tonconnect", "compareStateInitWithAddress"), 0, "bytes.Equal")
+	if w := c.fn("tonconnect", "compareStateInitWithAddress"); w != nil {
+		c.returnsUnchanged(R, w, 0, "bytes.Equal")
+	} else if cp != nil {
+		c.check(len(callsTo(cp, "bytes.Equal")) >= 1, R, "tonconnect.compareStateInitWithAddress returns bytes.Equal unchanged", cp.Pos(), "CheckProof compares the hash with bytes.Equal itself (no helper)", "CheckProof no longer compares the state-init hash with the address by bytes.Equal")
+	}
 	pl := c.mustFn(R, "tonconnect", "Server.CheckPayload")
 	if pl != nil {
 		c.mustDominate(R, pl, 0, []requiredCheck{
@@ -52,7 +73,8 @@ func propC19(c *Ctx) propInfo {
 				if !ok {
 					return false
 				}
-				return derivesFrom(b.X, callResult("time.Since"), false) && derivesFrom(b.Y, fieldLoad("lifeTimePayload"), false)
+				return (derivesFrom(b.X, callResult("time.Since"), false) && derivesFrom(b.Y, fieldLoad("lifeTimePayload"), false)) ||
+					((b.Op == token.LSS || b.Op == token.LEQ) && derivesFrom(b.Y, callResult("time.Since"), false) && derivesFrom(b.X, fieldLoad("lifeTimePayload"), false))
 			}, kind: "notbool"},
 		}, nil, "")
 		c.boundsAtSuccess("E8.bounds", pl, 0, "len(payload bytes)", lenOf(nil), 32, 32)
@@ -69,7 +91,10 @@ func propC19(c *Ctx) propInfo {
 	c.floor("E8.bounds", 2)
 	// E1: no crash from the entry points that see attacker-supplied proofs
 	roots := c.rootsByName("E1.roots", "tonconnect:Server.CheckProof", "tonconnect:Server.CheckPayload", "tonconnect:ParseStateInit",
-		"tonconnect:convertTonProofMessage", "tonconnect:compareStateInitWithAddress", "tonconnect:createMessage")
+		"tonconnect:convertTonProofMessage", "tonconnect:createMessage")
+	if w := c.fn("tonconnect", "compareStateInitWithAddress"); w != nil {
+		roots = append(roots, w)
+	}
 	// (the one-line wrapper of ed25519.Verify is reachable from CheckProof when it exists; it is not an entry point of its own)
 	if w := c.fn("tonconnect", "signatureVerify"); w != nil {
 		roots = append(roots, w)
@@ -283,6 +308,18 @@ func (c *Ctx) proofDataflow() {
 			a := cl.Call.Args[len(cl.Call.Args)-1]
 			c.check(derivesFrom(a, si, false), R, shortQ(q)+" receives the proof's state-init", cl.Pos(), "tp.Proof.StateInit", "CheckProof passes a state-init other than the proof's to "+shortQ(q))
 			siArgs = append(siArgs, shape(a, 4))
+		}
+	}
+	if c.fn("tonconnect", "compareStateInitWithAddress") == nil && len(siArgs) == 1 {
+		// the comparison inlined: the hash given to bytes.Equal must come from the same proof field
+		for _, cl := range deepCalls("bytes.Equal") {
+			for _, a := range cl.Call.Args {
+				if derivesFrom(a, callResult(bocPath+".Cell.Hash", bocPath+".Cell.Hash256"), true) && derivesFrom(a, si, true) {
+					siArgs = append(siArgs, siArgs[0])
+					c.ok(R, "compareStateInitWithAddress receives the proof's account id", cl.Pos(), "inlined: bytes.Equal(hash of tp.Proof.StateInit, account address)")
+					c.ok(R, "compareStateInitWithAddress receives the proof's state-init", cl.Pos(), "inlined: the hashed cells are decoded from tp.Proof.StateInit")
+				}
+			}
 		}
 	}
 	c.check(len(siArgs) == 2 && siArgs[0] == siArgs[1], R, "the state-init whose hash is compared is the one the key is taken from", f.Pos(), fmt.Sprint(siArgs), fmt.Sprintf("the state-init compared with the address and the one the key is extracted from differ: %v", siArgs))
